@@ -56,9 +56,9 @@ type RunOptions struct {
 	Replay []string
 	// Lenient (minimiser): recorded choices that are not enabled are skipped instead of
 	// being a divergence; a task step is matched by task name when its site differs.
-	Lenient bool
-	KeepEvents      bool
-	Profile         bool // record site hits
+	Lenient    bool
+	KeepEvents bool
+	Profile    bool // record site hits
 }
 
 // Run executes one simulated run inside a synctest bubble.
@@ -513,7 +513,11 @@ func (w *World) armSiteFaults() {
 			}
 			if t.Role == f.Role && t.Site() == f.Site {
 				f.hits++
-				if f.hits >= f.K {
+				need := f.K
+				if f.AtVisit > 0 {
+					need = f.AtVisit
+				}
+				if f.hits >= need {
 					f.armed = true
 				}
 			}
